@@ -81,6 +81,12 @@ func c15Run(o *out, input string) {
 	r := httptest.NewRequest("POST", "/verif.c15.Tsvc/Unary", strings.NewReader(string(grpcFrame(nil))))
 	r.ProtoMajor, r.ProtoMinor = 2, 0
 	r.Header.Set("Content-Type", "application/grpc")
+	web := len(f) > 2 && f[2] == "w"
+	if web {
+		// the same header on the gRPC-web entry
+		r.ProtoMajor, r.ProtoMinor = 1, 1
+		r.Header.Set("Content-Type", "application/grpc-web+proto")
+	}
 	r.Header["Grpc-Timeout"] = []string{val}
 	w := httptest.NewRecorder()
 	t0 := time.Now()
@@ -100,6 +106,11 @@ func c15Run(o *out, input string) {
 	gs := w.Header().Get("Grpc-Status")
 	if gs == "" {
 		gs = w.Result().Trailer.Get("Grpc-Status")
+	}
+	if gs == "" && web {
+		if v := webTrailers(w.Body.Bytes())["grpc-status"]; len(v) > 0 {
+			gs = v[0]
+		}
 	}
 	if gs == "" {
 		gs = "none"
@@ -128,6 +139,10 @@ func c15Gen(o *out, r *rng, tier string) {
 			// the same header on a mux with a stats handler and an interceptor
 			o.count("behind-stats/" + tag)
 			c15Run(o, "C15T "+hx([]byte(s))+" s")
+		}
+		if nemit%5 == 2 {
+			o.count("grpc-web/" + tag)
+			c15Run(o, "C15T "+hx([]byte(s))+" w")
 		}
 	}
 	units := "HMSmun"
